@@ -242,6 +242,105 @@ fn bases_of(al: Alphabet, sizes: &[(usize, usize)], t: &Table) -> Vec<(&'static 
         .collect()
 }
 
+/// expressions with 15..33 variables (beyond the inline capacity of the name lists), some of them
+/// recurring in nested groups; selected substitution histories (not the full product): identity,
+/// one variable at a distinguished position replaced by every pool entry, all-to-one, each
+/// followed by a second substitution
+fn many_variable_subs(t: &Arc<Table>, rep: &mut Report, th: bool) {
+    let ms: Vec<usize> = if th { vec![15, 16, 17, 18, 20, 32, 33, 65] } else { vec![16, 17, 18, 33] };
+    let name = |i: usize| format!("v{:02}", i + 1);
+    let mut base_texts: Vec<&'static str> = Vec::new();
+    for &m in &ms {
+        let chain = (0..m).map(name).collect::<Vec<_>>().join("+");
+        base_texts.push(intern(&format!("{chain}+{}*{}+({}-{})", name(0), name(1), name(2), name(0))));
+        base_texts.push(intern(&format!("f({}+{})*({chain})-f({}/{})", name(m - 1), name(0), name(1), name(m - 2))));
+        base_texts.push(intern(&format!("({})*({})", (0..m).step_by(2).map(name).collect::<Vec<_>>().join("+"), (0..m).rev().step_by(3).map(name).collect::<Vec<_>>().join("-"))));
+    }
+    let bases = read_all(&base_texts, t);
+    let pool = read_all(&["v02+v03", "v01*w", "a", "f(v05)+1", "2", "v17-v01", "z9"], t);
+    let m = SubsModel { table: t.clone(), bases: Arc::new(bases), pool: Arc::new(pool), max_len: 3 };
+    let mut hists: Vec<Vec<Act>> = Vec::new();
+    for (bi, (_, tree)) in m.bases.iter().enumerate() {
+        let n = tree.vars().len();
+        let k = m.pool.len();
+        for form in 0..3u8 {
+            if form == 2 && !m.bases[bi].0.contains(|c: char| c.is_ascii_digit()) {
+                continue;
+            }
+            let init = Act::Init(bi, form);
+            let mut firsts: Vec<Vec<u8>> = vec![vec![0; n]];
+            let mut marks = vec![0usize, 1, 4, 14, 15, 16, n / 2, n - 1];
+            marks.retain(|p| *p < n);
+            marks.sort();
+            marks.dedup();
+            for &p in &marks {
+                for j in 1..=k {
+                    let mut c = vec![0u8; n];
+                    c[p] = j as u8;
+                    firsts.push(c);
+                }
+            }
+            for j in 1..=k {
+                firsts.push(vec![j as u8; n]);
+            }
+            for f in firsts {
+                hists.push(vec![init.clone(), Act::Subs(f.clone())]);
+                // a second step: identity, and the (new) first variable replaced
+                hists.push(vec![init.clone(), Act::Subs(f.clone()), Act::Subs(vec![])]);
+                hists.push(vec![init.clone(), Act::Subs(f), Act::Subs(vec![1])]);
+            }
+        }
+    }
+    if let Some(target) = REPLAY_TARGET.get() {
+        // `verif replay`: these histories are listed, not enumerated by a model
+        set_table(t);
+        if let Some(h) = hists.iter().find(|h| &m.describe(h) == target) {
+            println!("found in the many-variables family: {h:?}");
+            let code = match guard(|| m.run(h)) {
+                Ok(o) if o.bad.is_empty() => {
+                    println!("  => this history agrees with the reference");
+                    0
+                }
+                Ok(o) => {
+                    for (sig, what) in &o.bad {
+                        println!("  BAD {sig}: {what}");
+                    }
+                    1
+                }
+                Err(p) => {
+                    println!("  BAD panic: {p}");
+                    1
+                }
+            };
+            std::process::exit(code);
+        }
+        return;
+    }
+    let accs = par_ranges(hists.len() as u64, 8, || {
+        install_panic_hook();
+        set_table(t);
+    }, |st, en, acc| {
+        for i in st..en {
+            let h = &hists[i as usize];
+            acc.states += 1;
+            acc.nontrivial += 1;
+            acc.evaluations += 1;
+            let out = match guard(|| m.run(h)) {
+                Ok(o) => o,
+                Err(p) => Outcome { key: String::new(), bad: vec![(format!("panic:{}", panic_site(&p)), format!("history {} panicked: {p}", m.describe(h)))], terminal: true, steps: 0 },
+            };
+            acc.transitions += out.steps;
+            for (sig, what) in out.bad {
+                acc.violate(Violation { signature: format!("many-variables:{sig}"), what, case: json!({"engine": "c11", "history": m.describe(h)}) });
+            }
+        }
+    });
+    for a in accs {
+        rep.absorb(a);
+    }
+    rep.bounds.push(format!("many variables: {} base expressions with {ms:?} variables (recurring in nested groups) x forms x {} selected substitution histories (identity, one distinguished variable := every pool entry, all-to-one; each followed by an identity / first-variable substitution): complete", m.bases.len(), hists.len()));
+}
+
 pub fn run(tier: Tier) -> i32 {
     let mut rep = Report::new("C11", tier);
     rep.rule = "explicit-state exploration: state = (base expression, form, substitution history); first step: every partial map from the expression's variables into a replacement pool (variable renaming, swap, constant, self-referential, multi-variable and new-variable replacements, and no replacement); further steps: empty map, every single-variable replacement, all-to-one maps; oracle: simultaneous substitution on the reference tree, sorted union of the variables, symbolic value modulo AC; distinct = unique structural dumps; non-trivial = at least one substitution".into();
@@ -250,6 +349,7 @@ pub fn run(tier: Tier) -> i32 {
     let t = table();
     // incl. replacements that are the replaced variable itself under unary operators only
     let pool = read_all(if tier.thorough() { &["y", "x", "2", "x+1", "z*x", "w", "-x", "f(x)", "f(y)-x", "{a b}", "-f(z)"][..] } else { &["y", "x", "2", "x+1", "z*x", "w", "-x", "f(x)"][..] }, &t);
+    many_variable_subs(&t, &mut rep, tier.thorough());
     let leaves = vec![Tree::var("x"), Tree::var("y"), Tree::var("z"), Tree::lit(1)];
     let small = bases_of(Alphabet { leaves: leaves.clone(), uns: vec![2, 4], bins: vec![0, 1, 2, 3] }, &[(1, 0), (1, 1), (2, 0), (2, 1)], &t);
     let n_small = small.len();
